@@ -2,14 +2,45 @@ CFG = {'assumptions': ["64*len(bm) < 2^31 (Go's int32 positions cannot overflow;
                  'every word is in [0,2^64) (words_ok)',
                  'domain of the property: 0 <= i <= end <= 64*len(bm), i < 64*len(bm); PrevOne additionally end >= 1'],
  'files': ['bitmap/next.go', 'bitmap/mask.go'],
- 'go': {'bitmap.NextOne': 'bitmap.NextOne',
-        'bitmap.PrevOne': 'bitmap.PrevOne',
+ 'go': {'bitmap.Next/Get1': 'NextOne, PrevOne and bitmap.Get1 at the positions they return',
+        'bitmap.Next/Select32': 'the NextOne walk of the whole bitmap; bitmap.Select32 / bitmap.Select32R64 over '
+                                'bitmap.IndexSelect32 / IndexSelect32R64 for every index of the walk',
+        'bitmap.Next/ToArray': 'the two walks over the whole bitmap and bitmap.ToArray',
+        'bitmap.Next/count': 'rounds of the two walks of [i,end) and bitmap.Rank64(end) - bitmap.Rank64(i) over '
+                             'bitmap.IndexRank64(bm, trailing)',
+        'bitmap.Next/held': 'bitmap.NextOne / bitmap.PrevOne: a list of queries on ONE slice, run twice, slice '
+                            'compared with a copy',
+        'bitmap.NextOne': 'bitmap.NextOne',
         'bitmap.NextOne/ends': 'bitmap.NextOne (for every end in [i, 64*len])',
-        'bitmap.PrevOne/starts': 'bitmap.PrevOne (for every i in [0, min(end, 64*len-1)])'},
+        'bitmap.NextOne/iter': 'loop "for i < end { p := NextOne(bm,i,end); if p < 0 {break}; out = append(out,p); i = '
+                               'p+1 }"',
+        'bitmap.NextOne/sparse': 'bitmap.NextOne (run-length coded bitmap argument; model = int32 model NextOne32)',
+        'bitmap.NextPrev/dual': 'NextOne, PrevOne, PrevOne(bm,i,n+1), NextOne(bm,p,end), PrevOne(bm,i,n), '
+                                'NextOne(bm,p+1,end)',
+        'bitmap.Of/walk': 'bitmap.Of(ps[, n]) then the NextOne walk and the PrevOne walk of the whole result',
+        'bitmap.PrevOne': 'bitmap.PrevOne',
+        'bitmap.PrevOne/iter': 'loop "for end > i { p := PrevOne(bm,i,end); if p < 0 {break}; out = append(out,p); end '
+                               '= p }"',
+        'bitmap.PrevOne/sparse': 'bitmap.PrevOne (run-length coded bitmap argument; model = int32 model PrevOne32)',
+        'bitmap.PrevOne/starts': 'bitmap.PrevOne (for every i in [0, min(end, 64*len-1)])',
+        'bitmap.Slice/walk': 'bitmap.Slice(bm, from, to) then the NextOne walk and the PrevOne walk of the whole '
+                             'result'},
  'rule': 'cases = exhaustive sweeps (every single-bit bitmap of 1..3 words, constant and {bit0,bit63} bitmaps x all '
          '(i,end) of the domain, one sweep line = all ends for one i / all i for one end) + structured bitmaps (1-bits '
          'separated by 0..4 all-zero words, bits at offsets 0 and 63, ranges aimed at 1-bits, word boundaries and '
          'their neighbours, empty and whole ranges) + random bitmaps of 1..12 words; a case is non-trivial when the '
          'bitmap has a 1-bit and the range is not empty; shape key = (op, where the hit is: first word / after k '
-         'all-zero words / none, clipped by the range or not, bits masked off in the first word, offset classes of '
-         'i, end and the hit); distinct = distinct (op,args)'}
+         'all-zero words / none, clipped by the range or not, bits masked off in the first word, offset classes of i, '
+         'end and the hit); widening (c13w.go): large sparse bitmaps with gaps of 100..5000 all-zero words, bitmaps '
+         'and ranges crossing the bit offsets 2^8 / 2^15 / 2^16 / 2^20, held bitmaps (2..36 queries of both kinds on '
+         'one slice, run twice, following the patterns of the laws: same range both ways, nested ranges, a range and '
+         'its halves), walks of ranges and of the whole bitmap with NextOne / PrevOne (against ToArray), the six-call '
+         'duality bundle; widening shape key = (op, hit/none, class of the number of all-zero words stepped over: 0 / '
+         '1-4 / 5-99 / 100-999 / 1000+, clipped, which 2^k offsets the scanned stretch crosses, offset classes of i, '
+         'end, hit) resp. (number of 1-bits walked, offset classes); a widening case is non-trivial when the range is '
+         'non-empty (sparse), the bitmap has a 1-bit (held, ToArray) or the range contains a 1-bit (walks, duality); '
+         'sessions (generated FIRST, both tiers): bitmap.Next/held cases on one held slice - every bitmap of 4 words '
+         '(thorough: also 5) over {0,1,1<<63} with at most two non-zero words x every ordered pair of NextOne/PrevOne '
+         "queries with i, end at a word boundary or next to one, run consecutively (session a b a b' a ...), and "
+         'random sessions of 600 (thorough 3000) such queries on bitmaps of 5..7 words (zero-word gaps of 2..6 words); '
+         'session shape key = (words, non-zero words, exhaustive or sampled); distinct = distinct (op,args)'}
